@@ -9,6 +9,7 @@ prop("C17", pkg="c17",
           "distinct = FNV-64 of the inputs.",
      quick=dict(shards=16, scale=1, timeout=900),
      thorough=dict(shards=16, scale=25, timeout=3000),
+     fuzz=[('FuzzTokenizer', 60)],
      technique="rapid property-based differential testing against a token model derived from encoding/json.Decoder.Token; stateful Reset histories",
      level_text="Exploration: exact token-stream comparison on several hundred thousand generated documents per quick run, plus termination/stickiness on "
                 "arbitrary bytes and Reset/reuse histories compared with a fresh Tokenizer.",
